@@ -44,7 +44,7 @@ package util
 //@   call[Writer.Write#0] assert prefix [C01]: len(arg1) == vsize(sumlen(d))
 //@   call[Writer.Write#1] assert chunk [C01]: ref(arg1) == elemref(d, rangeindex__2)
 //@   ensures count [C01,C05,C16]: err == nil ==> wn(w) == old(wn(w)) + vsize(sumlen(d)) + sumlen(d)
-//@   ensures partial [C16]: old(wn(w)) <= wn(w)
+//@   ensures partial [C06,C16]: old(wn(w)) <= wn(w)
 
 //@ func LdSize
 //@   requires few: len(d) <= 16
